@@ -355,7 +355,7 @@ Definition go_enum_decls_of (custom_structs : list str) (e : renum) : TM (list g
     ret (anon ++ [GOUnitEnum (ecomments sh) en vs])
   | EAlgebraic tag_key content_key _ =>
     mdo struct_name <- go_acronyms_to_uppercase (original (eid sh));  (* go.rs:312 *)
-    mdo content_field <- go_lift (to_camel_case content_key);         (* go.rs:313, panics on "" *)
+    mdo content_field <- go_lift (to_camel_case content_key);         (* go.rs:313 (total since the /repo fix of to_camel_case) *)
     mdo tag_field <- go_format_field_name tag_key true;               (* go.rs:314 *)
     mdo struct_short_name <-                                          (* go.rs:315 original[..1] *)
       match original (eid sh) with
